@@ -147,6 +147,10 @@ func main() {
 		childServer()
 		return
 	}
+	if run.SubMode == "client" {
+		childClient()
+		return
+	}
 	run.Rule("part 1: exhaustive enumeration of first frames over a 16-symbol protocol alphabet (length <= L) with continuation frames, " +
 		"plus grammar-aware mutations and truncations; a case is distinct by (Add outcome class, packet type, per-family decode outcome classes). " +
 		"part 2: hostile sequences replayed against a real server in a child process")
@@ -305,6 +309,18 @@ func main() {
 	var hostile [][][]byte
 	interesting.Range(func(k, v any) bool { hostile = append(hostile, v.([][]byte)); return true })
 	processLevel(run, hostile)
+	// mirror for the Go client: the hostile frames come from the server side
+	var cseqs [][][]byte
+	cseqs = append(cseqs, hostile...)
+	all := mutations(run)
+	stride := run.Pick(len(all)/150+1, len(all)/2000+1)
+	for i := 0; i < len(all); i += stride {
+		cseqs = append(cseqs, all[i])
+	}
+	for _, s := range []string{"0/", "2/", "4/", `51-["e",{"_placeholder":true,"num":-2}]`, `51-["m",{"bin":{"_placeholder":true,"num":-2}}]`, `61-3[{"_placeholder":true,"num":-1}]`} {
+		cseqs = append(cseqs, [][]byte{[]byte(s), {1, 2, 3}})
+	}
+	clientMirror(run, cseqs)
 	run.Finish()
 }
 
